@@ -169,3 +169,32 @@ Definition dv (pdu : bytes) (tid pid uid : Z) : delivery := {| d_pdu := pdu; d_t
 Definition ob (ds : list delivery) (e : option pyexn) (buf : bytes) (hdr : list Z) : obs :=
   {| o_ds := ds; o_exc := e; o_buf := buf; o_hdr := hdr |}.
 Definition fr (tid pid uid : Z) (pdu : bytes) : frame := {| f_tid := tid; f_pid := pid; f_uid := uid; f_pdu := pdu |}.
+
+(* ---- C11 through the REAL serial-style handlers (sync ModbusSingleRequestHandler, asyncio
+   datagram handler) with the ASCII framer: the handler catches what processIncomingPacket raises
+   and calls resetFrame() — modelled by [a_recv_h].  Observed per read: requests delivered to
+   execute(), the exception processIncomingPacket raised (caught by the handler), buffer/header
+   after the handler's except/finally.  [answered]: the delivered requests for which a response was
+   written to the port, in order.  Property: every valid request later than two maximum-size frames
+   after the garbage is ANSWERED, and the backlog stays bounded. *)
+Definition handler_case := (cfg * dtable * Z * list frame * list bytes * list obs * list delivery)%type.
+
+Fixpoint h_feed_ok (dec : bytes -> dres) (c : cfg) (st : astate) (chunks : list bytes) (xs : list obs) : bool :=
+  match chunks, xs with
+  | [], [] => true
+  | ch :: chunks', x :: xs' =>
+      let '(st', ds, o) := a_recv_h base lrc ascii dec c st ch in
+      obs_matches (MA st') ds o x && h_feed_ok dec c st' chunks' xs'
+  | _, _ => false
+  end.
+
+Definition chk_c11h (c : handler_case) : bool * bool :=
+  let '(cf, t, glen, frames, chunks, xs, answered) := c in
+  let k := KAscii in
+  (h_feed_ok (dec_of t) cf (a_init ascii) chunks xs,
+   if bytes_eqb (skipn (Z.to_nat glen) (concat chunks)) (flat_map (spec_adu k) frames)
+      && frames_valid k t frames && forallb (fun f => spec_accepts k cf (f_uid f)) frames
+   then is_subseq (map (spec_delivery k) (late_frames k (2 * ascii_lmax) frames)) answered
+        && Nat.eqb (length xs) (length chunks)
+        && backlog_ok 0 (glen + 2 * ascii_lmax) chunks xs
+   else true).
